@@ -298,7 +298,10 @@ def password_to_key(
         from a password.
     """
 
-    @lru_cache(maxsize=None)
+    # The engine-id of an incoming message is used as cache key before the
+    # message has been authenticated. The cache must be bounded: a peer could
+    # otherwise make the process keep one entry for every datagram it sends.
+    @lru_cache(maxsize=128)
     def hasher(password: bytes, engine_id: bytes) -> bytes:
         """
         Derive a key from a password and engine-id.
